@@ -16,6 +16,23 @@ NOTES = ('Every check executes the implementation in /repo/src (working tree) '
          'DESIGN.md.')
 
 CHECKS = [
+    {'id': 'C01', 'engine': 'explore', 'level': 'exploration',
+     'design_ref': 'DESIGN.md §4 C01',
+     'technique': 'bounded exhaustive enumeration of layer-graph x fault x '
+                  'option worlds executed on the real Runner, with a state '
+                  'monitor over the set-up/tear-down/test trace of every process',
+     'text': 'Every DAG of <=3 (thorough: 4) layers, class and instance kinds, '
+             'both namings, every owner subset, every placement of <=2 failing '
+             'hooks (setUp raises / tearDown raises / tearDown raises '
+             'NotImplementedError), with and without hook-less layers, under '
+             '-x, --repeat, --shuffle, --layer and -j N, is run on the real '
+             'Runner; a monitor checks the stack invariant at every hook and '
+             'test event of every (virtual) process, plus that resumed layers '
+             'run in exactly one fresh child. Complete for the bound.',
+     'note': 'Children are real Runner instances started in-process with the '
+             'argv the parent computed (one schedule); more than 4 layers, '
+             'more than 2 simultaneous faults and partial hook sets (setUp '
+             'without tearDown) are outside the bound.'},
     {'id': 'C20', 'engine': 'explore', 'level': 'exploration',
      'design_ref': 'DESIGN.md §4 C20',
      'technique': 'exhaustive small-scope enumeration of all digraphs (<=4, '
@@ -30,7 +47,7 @@ CHECKS = [
              'nodes use whatever id() order the interpreter gives.'},
 ]
 
-_PENDING = ['C01', 'C02', 'C03', 'C04', 'C05', 'C06', 'C07', 'C08', 'C09',
+_PENDING = ['C02', 'C03', 'C04', 'C05', 'C06', 'C07', 'C08', 'C09',
             'C10', 'C11', 'C12', 'C13', 'C14', 'C15', 'C16', 'C17', 'C18',
             'C19']
 _DONE = {c['id'] for c in CHECKS}
